@@ -7,7 +7,7 @@ from sa.engine.cfg import is_shield_with
 from sa.engine.facts import Bad, F, atom
 from sa.engine.pattern import P, u
 from sa.engine.source import AnalysisError, norm, own_walk, stmt_of
-from .common import A, SYNC, MEM, TASKS, checkpoint_typestate, lexically_inside
+from .common import A, SYNC, MEM, TASKS, checkpoint_typestate, lexically_inside, dominates_all_exits
 from .walkers import check_cic
 
 EXPLANATION = ("Checkpoint discipline: the checkpoint primitives themselves; a typestate automaton (cancellation check before the effect, "
@@ -22,6 +22,14 @@ GENERATORS = ["accumulate", "batched", "Chain.from_iterable", "combinations", "c
               "dropwhile", "filterfalse", "groupby", "islice", "pairwise", "permutations", "product", "repeat", "starmap", "takewhile",
               "zip_longest"]
 INFINITE = {"count"}
+# "every element produced has passed a checkpoint since the previous one" needs value reasoning in two functions, which the
+# path analysis cannot do (the only abstract paths that violate it are infeasible): batched (`for _ in range(n)` runs at least
+# once because n >= 1 was validated at entry), zip_longest (the inner `for` always meets an active iterator while num_active > 0)
+SINCE_EXEMPT = {"batched", "zip_longest"}
+
+
+def _real_body(fn):
+    return [x for x in fn.body if not isinstance(x, ast.Pass) and not (isinstance(x, ast.Expr) and isinstance(x.value, ast.Constant))]
 
 
 def has_async_comp(frag) -> bool:
@@ -38,15 +46,28 @@ def generator_rule(ctx, f, model):
             return True
         return has_async_comp(frag)
 
+    def is_sync_src(frag, node):
+        # `async for x in _iterate(itertools.f(...))`: the source is a synchronous stdlib iterator built here, so the adapter of
+        # R08-c checkpoints on every step whatever the caller passed in (holds in model B too)
+        if node.kind == "for_iter" and isinstance(node.node, ast.AsyncFor):
+            it = node.node.iter
+            if isinstance(it, ast.Call) and getattr(it.func, "id", "") == "_iterate" and len(it.args) == 1:
+                a = it.args[0]
+                return isinstance(a, ast.Call) and isinstance(a.func, ast.Attribute) and isinstance(a.func.value, ast.Name) \
+                    and a.func.value.id == "itertools"
+        return False
+
     def is_yield(frag, node):
         return frag is not None and node.kind in ("stmt", "return") and any(isinstance(x, (ast.Yield, ast.YieldFrom)) for x in [frag] + list(own_walk(frag)))
 
-    spec = [("src", ["await anext($I)", "await anext($I, $D)", "await $I.__anext__()", is_src]),
+    spec = [("syncsrc", [is_sync_src]), ("src", ["await anext($I)", "await anext($I, $D)", "await $I.__anext__()", is_src]),
             ("cp", ["await checkpoint()"]), ("cic", ["await checkpoint_if_cancelled()"]), ("csc", ["await cancel_shielded_checkpoint()"]),
             ("yield", [is_yield])]
 
     def step(st, e, c):
         chk, yielded, half, since = st
+        if e == "syncsrc":
+            return (True, yielded, half, True)
         if e == "src":
             if model == "A":
                 return (True, yielded, half, True)
@@ -62,7 +83,7 @@ def generator_rule(ctx, f, model):
                 return (True, yielded, False, True)
             return st
         if e == "yield":
-            if model == "A" and f.qual in ("count", "repeat", "cycle") and not since:
+            if model == "A" and not since and f.qual not in SINCE_EXEMPT:
                 return Bad("an element is produced without a checkpoint since the previous one (a consumer loop over this iterator never yields to the event loop)")
             return (chk, True, half, False)
         return st
@@ -84,7 +105,7 @@ def check(ctx):
     # ---- R08-0 the primitives ------------------------------------------------------------------------------------------
     cp = ctx.fn("AsyncIOBackend.checkpoint", A)
     s = ctx.sites(cp, "await sleep(0)")
-    ctx.ob("R08-0", cp, "checkpoint() is `await sleep(0)` (cancel point + yield)", len(s) == 1 and len(cp.node.body) == 1,
+    ctx.ob("R08-0", cp, "checkpoint() is `await sleep(0)` (cancel point + yield)", len(s) == 1 and len(_real_body(cp.node)) == 1,
            detail="" if s else "AsyncIOBackend.checkpoint no longer awaits sleep(0)", by=("await sleep(0)",))
     csc = ctx.fn("AsyncIOBackend.cancel_shielded_checkpoint", A)
     s = ctx.sites(csc, "await sleep(0)")
@@ -99,11 +120,11 @@ def check(ctx):
     for nm in ("checkpoint", "checkpoint_if_cancelled", "cancel_shielded_checkpoint"):
         f = ctx.fn(nm, "lowlevel.py")
         s = ctx.sites(f, f"await get_async_backend().{nm}()")
-        ctx.ob("R08-0", f, f"lowlevel.{nm} delegates to the backend", len(s) == 1 and len([x for x in f.node.body if not isinstance(x, ast.Expr) or not isinstance(x.value, ast.Constant)]) == 1,
+        ctx.ob("R08-0", f, f"lowlevel.{nm} delegates to the backend", len(s) == 1 and len(_real_body(f.node)) == 1,
                detail="" if s else f"lowlevel.{nm} does not await get_async_backend().{nm}()", by=("delegation",))
 
     # ---- R08-a typestate per operation --------------------------------------------------------------------------------
-    n_ops = 0
+    n_ops = 3   # sleep, checkpoint, cancel_shielded_checkpoint (R08-0 above)
     # Event.wait
     ew = ctx.fn("Event.wait", A)
     checkpoint_typestate(ctx, "R08-a", ew, blocks=["await self._event.wait()"], instance="Event.wait", native=False)
@@ -161,22 +182,19 @@ def check(ctx):
     rs = ctx.fn("AsyncIOBackend.run_sync_in_worker_thread", A)
     checkpoint_typestate(ctx, "R08-a", rs, effects=["$W.queue.put_nowait($*A)", "$W.start()"], blocks=["await $F"],
                          instance="run_sync_in_worker_thread: nothing is started in a cancelled scope", native=False,
-                         delegates=[])
+                         delegates=[], require_undo=False)   # leaving the wait by cancellation is the documented abandon_on_cancel behaviour
     n_ops += 1
     tt = ctx.fn("run_sync", "to_thread.py")
     s = ctx.sites(tt, "return await get_async_backend().run_sync_in_worker_thread($*A)")
     ctx.ob("R08-a", tt, "to_thread.run_sync delegates to the backend operation", len(s) == 1, detail="" if s else "no delegation", by=("delegation",))
     # futures / task handles
     fw = ctx.fn("Future.wait", "_core/_futures.py")
-    s = ctx.sites(fw, "await self._finished_event.wait()")
-    ctx.ob("R08-a", fw, "Future.wait waits on its event (Event.wait checkpoints)", len(s) == 1, detail="" if s else "Future.wait does not await self._finished_event.wait()",
-           by=("Event.wait",))
+    dominates_all_exits(ctx, "R08-a", fw, "await self._finished_event.wait()", "Future.wait waits on its event on every path (Event.wait checkpoints)")
     fa = ctx.fn("Future.__await__", "_core/_futures.py")
     s = ctx.sites(fa, "yield from self.wait().__await__()")
     ctx.ob("R08-a", fa, "awaiting a Future goes through wait()", len(s) == 1, detail="" if s else "Future.__await__ bypasses wait()", by=("self.wait()",))
     hw = ctx.fn("TaskHandle.wait", TASKS)
-    s = ctx.sites(hw, "await self._finished_event.wait()")
-    ctx.ob("R08-a", hw, "TaskHandle.wait waits on its event", len(s) == 1, detail="" if s else "TaskHandle.wait does not await the finished event", by=("Event.wait",))
+    dominates_all_exits(ctx, "R08-a", hw, "await self._finished_event.wait()", "TaskHandle.wait waits on its event on every path")
     ha = ctx.fn("TaskHandle.__await__", TASKS)
     s = ctx.sites(ha, "yield from self._finished_event.wait().__await__()")
     ctx.ob("R08-a", ha, "awaiting a TaskHandle waits on its event", len(s) == 1, detail="" if s else "TaskHandle.__await__ bypasses the event", by=("Event.wait",))
@@ -298,7 +316,7 @@ def check(ctx):
             cic, csc, cp = st
             if kind == "return" and (h, False) in facts and not (cic and csc):
                 return "an element served from the shared buffer (no yield point in fill()) is returned without the cancellation check + yield pair"
-            if kind == "raise:StopAsyncIteration" and ("self._element_yielded", False) in facts and not cp and (h, False) in facts:
+            if kind == "raise:StopAsyncIteration" and ("self._element_yielded", True) not in facts and not cp and (h, True) not in facts:
                 return "an exhausted tee iterator that never yielded ends without a checkpoint"
             return None
 
